@@ -238,6 +238,18 @@ func (p *Program) Pos(pos token.Pos) string {
 // FuncName is a stable printable name: pkg-relative, with receiver.
 func (p *Program) FuncName(fn *ssa.Function) string {
 	s := fn.String()
+	if o := fn.Origin(); o != nil {
+		s = o.String() // instances are reported under their generic origin
+	} else if par := fn.Parent(); par != nil {
+		root, chain := fn, ""
+		for root.Parent() != nil {
+			chain = "$" + root.Name()[strings.LastIndex(root.Name(), "$")+1:] + chain
+			root = root.Parent()
+		}
+		if o := root.Origin(); o != nil {
+			s = o.String() + chain
+		}
+	}
 	s = strings.ReplaceAll(s, ModulePath+"/handler/", "")
 	s = strings.ReplaceAll(s, ModulePath+"/middleware/", "")
 	s = strings.ReplaceAll(s, ModulePath+"/cmd/", "cmd/")
